@@ -85,6 +85,9 @@ Proofs/Lexer.vos Proofs/Lexer.vok Proofs/Lexer.required_vos: Proofs/Lexer.v Base
 Proofs/Heap.vo Proofs/Heap.glob Proofs/Heap.v.beautified Proofs/Heap.required_vo: Proofs/Heap.v Base/Base.vo Model/Reader.vo Model/Printer.vo Model/Api.vo
 Proofs/Heap.vio: Proofs/Heap.v Base/Base.vio Model/Reader.vio Model/Printer.vio Model/Api.vio
 Proofs/Heap.vos Proofs/Heap.vok Proofs/Heap.required_vos: Proofs/Heap.v Base/Base.vos Model/Reader.vos Model/Printer.vos Model/Api.vos
+Proofs/Build.vo Proofs/Build.glob Proofs/Build.v.beautified Proofs/Build.required_vo: Proofs/Build.v Base/Base.vo Model/Reader.vo Model/Printer.vo Model/Api.vo Proofs/Heap.vo
+Proofs/Build.vio: Proofs/Build.v Base/Base.vio Model/Reader.vio Model/Printer.vio Model/Api.vio Proofs/Heap.vio
+Proofs/Build.vos Proofs/Build.vok Proofs/Build.required_vos: Proofs/Build.v Base/Base.vos Model/Reader.vos Model/Printer.vos Model/Api.vos Proofs/Heap.vos
 Proofs/Depth.vo Proofs/Depth.glob Proofs/Depth.v.beautified Proofs/Depth.required_vo: Proofs/Depth.v Base/Base.vo Model/Reader.vo Model/Printer.vo Model/Store.vo Model/Eval.vo
 Proofs/Depth.vio: Proofs/Depth.v Base/Base.vio Model/Reader.vio Model/Printer.vio Model/Store.vio Model/Eval.vio
 Proofs/Depth.vos Proofs/Depth.vok Proofs/Depth.required_vos: Proofs/Depth.v Base/Base.vos Model/Reader.vos Model/Printer.vos Model/Store.vos Model/Eval.vos
@@ -115,9 +118,9 @@ Props/C05.vos Props/C05.vok Props/C05.required_vos: Props/C05.v Base/Base.vos Mo
 Props/C06.vo Props/C06.glob Props/C06.v.beautified Props/C06.required_vo: Props/C06.v Base/Base.vo Model/Reader.vo Model/Printer.vo Model/Store.vo Model/Eval.vo Model/Init.vo Proofs/Macros.vo
 Props/C06.vio: Props/C06.v Base/Base.vio Model/Reader.vio Model/Printer.vio Model/Store.vio Model/Eval.vio Model/Init.vio Proofs/Macros.vio
 Props/C06.vos Props/C06.vok Props/C06.required_vos: Props/C06.v Base/Base.vos Model/Reader.vos Model/Printer.vos Model/Store.vos Model/Eval.vos Model/Init.vos Proofs/Macros.vos
-Props/C07.vo Props/C07.glob Props/C07.v.beautified Props/C07.required_vo: Props/C07.v Base/Base.vo Model/Reader.vo Model/Printer.vo Model/Store.vo Model/Eval.vo Model/Init.vo Proofs/Lists.vo Proofs/Backquote.vo
-Props/C07.vio: Props/C07.v Base/Base.vio Model/Reader.vio Model/Printer.vio Model/Store.vio Model/Eval.vio Model/Init.vio Proofs/Lists.vio Proofs/Backquote.vio
-Props/C07.vos Props/C07.vok Props/C07.required_vos: Props/C07.v Base/Base.vos Model/Reader.vos Model/Printer.vos Model/Store.vos Model/Eval.vos Model/Init.vos Proofs/Lists.vos Proofs/Backquote.vos
+Props/C07.vo Props/C07.glob Props/C07.v.beautified Props/C07.required_vo: Props/C07.v Base/Base.vo Model/Reader.vo Model/Printer.vo Model/Store.vo Model/Eval.vo Model/Init.vo Proofs/Lists.vo Proofs/Backquote.vo Model/Api.vo Proofs/Heap.vo Proofs/Build.vo
+Props/C07.vio: Props/C07.v Base/Base.vio Model/Reader.vio Model/Printer.vio Model/Store.vio Model/Eval.vio Model/Init.vio Proofs/Lists.vio Proofs/Backquote.vio Model/Api.vio Proofs/Heap.vio Proofs/Build.vio
+Props/C07.vos Props/C07.vok Props/C07.required_vos: Props/C07.v Base/Base.vos Model/Reader.vos Model/Printer.vos Model/Store.vos Model/Eval.vos Model/Init.vos Proofs/Lists.vos Proofs/Backquote.vos Model/Api.vos Proofs/Heap.vos Proofs/Build.vos
 Props/C08.vo Props/C08.glob Props/C08.v.beautified Props/C08.required_vo: Props/C08.v Base/Base.vo Model/Reader.vo Proofs/ReaderTotal.vo
 Props/C08.vio: Props/C08.v Base/Base.vio Model/Reader.vio Proofs/ReaderTotal.vio
 Props/C08.vos Props/C08.vok Props/C08.required_vos: Props/C08.v Base/Base.vos Model/Reader.vos Proofs/ReaderTotal.vos
@@ -127,9 +130,9 @@ Props/C09.vos Props/C09.vok Props/C09.required_vos: Props/C09.v Base/Base.vos Mo
 Props/C10.vo Props/C10.glob Props/C10.v.beautified Props/C10.required_vo: Props/C10.v Base/Base.vo Model/Reader.vo Model/Printer.vo Model/Store.vo Model/Eval.vo Model/Init.vo Proofs/EvalRel.vo
 Props/C10.vio: Props/C10.v Base/Base.vio Model/Reader.vio Model/Printer.vio Model/Store.vio Model/Eval.vio Model/Init.vio Proofs/EvalRel.vio
 Props/C10.vos Props/C10.vok Props/C10.required_vos: Props/C10.v Base/Base.vos Model/Reader.vos Model/Printer.vos Model/Store.vos Model/Eval.vos Model/Init.vos Proofs/EvalRel.vos
-Props/C11.vo Props/C11.glob Props/C11.v.beautified Props/C11.required_vo: Props/C11.v Base/Base.vo Model/Reader.vo Model/Printer.vo Model/Store.vo Model/Eval.vo Model/Init.vo Model/Api.vo Proofs/Heap.vo Proofs/EvalRel.vo
-Props/C11.vio: Props/C11.v Base/Base.vio Model/Reader.vio Model/Printer.vio Model/Store.vio Model/Eval.vio Model/Init.vio Model/Api.vio Proofs/Heap.vio Proofs/EvalRel.vio
-Props/C11.vos Props/C11.vok Props/C11.required_vos: Props/C11.v Base/Base.vos Model/Reader.vos Model/Printer.vos Model/Store.vos Model/Eval.vos Model/Init.vos Model/Api.vos Proofs/Heap.vos Proofs/EvalRel.vos
+Props/C11.vo Props/C11.glob Props/C11.v.beautified Props/C11.required_vo: Props/C11.v Base/Base.vo Model/Reader.vo Model/Printer.vo Model/Store.vo Model/Eval.vo Model/Init.vo Model/Api.vo Proofs/Heap.vo Proofs/EvalRel.vo Proofs/Build.vo
+Props/C11.vio: Props/C11.v Base/Base.vio Model/Reader.vio Model/Printer.vio Model/Store.vio Model/Eval.vio Model/Init.vio Model/Api.vio Proofs/Heap.vio Proofs/EvalRel.vio Proofs/Build.vio
+Props/C11.vos Props/C11.vok Props/C11.required_vos: Props/C11.v Base/Base.vos Model/Reader.vos Model/Printer.vos Model/Store.vos Model/Eval.vos Model/Init.vos Model/Api.vos Proofs/Heap.vos Proofs/EvalRel.vos Proofs/Build.vos
 Props/C12.vo Props/C12.glob Props/C12.v.beautified Props/C12.required_vo: Props/C12.v Base/Base.vo Model/Reader.vo Model/Printer.vo Model/Store.vo Model/Eval.vo Model/Init.vo Proofs/Lists.vo
 Props/C12.vio: Props/C12.v Base/Base.vio Model/Reader.vio Model/Printer.vio Model/Store.vio Model/Eval.vio Model/Init.vio Proofs/Lists.vio
 Props/C12.vos Props/C12.vok Props/C12.required_vos: Props/C12.v Base/Base.vos Model/Reader.vos Model/Printer.vos Model/Store.vos Model/Eval.vos Model/Init.vos Proofs/Lists.vos
